@@ -532,3 +532,11 @@ package common
 //@   ensures[a-known-label-is-replaced-in-its-own-slot] old(has(cache.existMap, label)) ==> len(cache.dataList) == old(len(cache.dataList)) && cache.existMap[label] == old(cache.existMap[label])
 //@        && streq(cache.dataList[cache.existMap[label]].Label, label)
 //@ end
+
+// ---- C05 / C06 / C11: which `self` stands for the table of a colon method ----
+// only the implicit first parameter of that method: the first `self` of the method's own parameter scope, and a parameter
+//@ func (*FuncInfo).IsImplicitSelf
+//@   props C05 C06 C11
+//@   ensures[only-the-first-self-parameter-of-a-colon-function] result ==> fun != nil && fun.IsColon && varInfo != nil && varInfo.IsParam && fun.MainScope != nil
+//@        && has(fun.MainScope.LocVarMap, "self") && fun.MainScope.LocVarMap["self"].VarVec[0] == varInfo
+//@ end
